@@ -25,6 +25,11 @@ def close(a, b, rel=1e-9):
     return abs(a - b) <= rel * max(abs(a), abs(b), 1e-300)
 
 
+# adsorbate names as they appear in published mechanisms (isomer prefixes, hyphens, primes are all legal in CTI/YAML)
+ADS_NAMES = ['trans-COOH', 'cis-COOH', 'bi-HCOO', 'mono-HCOO', 'CH3CH2OH', 'CH3-CH2', 'n-C3H7', 'iso-C3H7', 'H2O-OH', 'NH2',
+             'NNH', 'HCOH', 'CH3O', 'eta2-CH2O', 'O-O', 'di-sigma-C2H4', 'pi-C2H4', 'COH', 'HCO', 'OH']
+
+
 class WorldC07(World):
     PROP = 'C07'
     RUNS = {'quick': 1200, 'thorough': 25000}
@@ -60,7 +65,8 @@ class WorldC07(World):
                 'jump_rate': rng.choice([0.0, 0.2, 0.5]), 'n_surf': rng.choice([1, 1, 2]),
                 'route': rng.choice(['organize', 'manual', 'manual']), 'n_rxn': rng.choice([0, 1, 3, 6, 12, 40]),
                 'n_inter': rng.choice([0, 0, 2, 5, 10]), 'kinds': rng.choice([['Nasa'], ['Nasa', 'Shomate'], ['Nasa', 'Shomate', 'Nasa9']]),
-                'w_model': rng.choice([1, 2, 3]), 'w_write': rng.choice([2, 3]), 'w_reactor': rng.choice([1, 1, 3]), 'enum': tier == 'thorough' and rng.random() < 0.15}
+                'w_model': rng.choice([1, 2, 3]), 'w_write': rng.choice([2, 3]), 'w_reactor': rng.choice([1, 1, 3]), 'enum': tier == 'thorough' and rng.random() < 0.15,
+                'long_names': rng.random() < 0.4}
 
     def n_steps(self, rng, swarm):
         return rng.randint(5, 18)
@@ -103,9 +109,12 @@ class WorldC07(World):
         for s in surf:
             tag = s[0].upper()
             sp.append({'name': 'RU(%s)' % tag, 'phase': s, 'elements': {'Ru': 1}, 'n_sites': 1})
-            for j in range(rng.randint(1, 5)):
+            long_names = sw.get('long_names')
+            pool = rng.sample(ADS_NAMES, len(ADS_NAMES))
+            for j in range(rng.randint(1, 12 if long_names else 5)):
                 e = el()
-                sp.append({'name': 'A%d(%s)' % (j, tag), 'phase': s, 'elements': e, 'n_sites': rng.choice([1, 1, 2])})
+                nm = '%s(%s)' % (pool[j], tag) if long_names else 'A%d(%s)' % (j, tag)
+                sp.append({'name': nm, 'phase': s, 'elements': e, 'n_sites': rng.choice([1, 1, 2])})
         for d in sp:
             d['kind'] = rng.choice(sw['kinds'])
             d['scale'] = round(rng.uniform(0.8, 1.2), 4)
